@@ -733,6 +733,12 @@ def check_trace_property(prop, tier, seed, work, replay=None, scale=1.0):
                     violations.append(rec)
             elif reasons is not None:
                 (violations if rec["reason"] in reasons else inconclusive).append(rec)
+            elif rec["reason"] == "encode-observer":
+                # Scalar.Encode() (part of every observation) disagrees with the stored limbs: C07's observer
+                (violations if prop in ("C07", "C10") else inconclusive).append(rec)
+            elif rec["reason"] == "equal-observer":
+                # Scalar.Equal() says a scalar differs from the decoding of its own encoding: C13's observer
+                (violations if prop in ("C13", "C10") else inconclusive).append(rec)
             elif rec["reason"] == "isidentity-observer":
                 # IsIdentity() (part of every observation) disagrees with the representation that was put in: C05's observer
                 (violations if prop in ("C05", "C10") else inconclusive).append(rec)
